@@ -42,7 +42,8 @@ type Prog struct {
 }
 
 type caseData struct {
-	Progs []Prog `json:"progs"`
+	Progs  []Prog   `json:"progs"`
+	Scopes []string `json:"scopes,omitempty"` // scopes of open findings: programs inside are not judged
 }
 
 // verdict of scriggo on one program.
@@ -101,6 +102,16 @@ func (prop) Work(c core.Case) core.Result {
 	for _, p := range cd.Progs {
 		res.Evals++
 		g := gotypes.Check(p.Src, libImporter{})
+		if !g.Accepted() && strings.Contains(g.FirstError(), "constant result is not representable") {
+			// an implementation restriction of go/constant (complex division
+			// with astronomically large exponents), not a rule of the language
+			res.Counts["reference_implementation_restriction"]++
+			continue
+		}
+		if sc := inScope(g, cd.Scopes); sc != "" {
+			res.Counts["excluded_by_scope:"+sc]++
+			continue
+		}
 		s := build(p.Src)
 		head := fmt.Sprintf("program %s (%s/%s %s)", p.ID, p.Origin, p.Kind, p.Note)
 		switch {
@@ -187,9 +198,9 @@ func corpusFiles(root string) []Prog {
 }
 
 func (prop) Drive(d *core.Driver) error {
-	nBase := d.N(300, 3000)
+	nBase := d.N(800, 3000)
 	nMut := d.N(10, 24)
-	nCorpusMut := d.N(1500, 30000)
+	nCorpusMut := d.N(4000, 30000)
 	perCase := 40
 	d.T.Rule = fmt.Sprintf("%d type-directed random programs (gen/typedprog: basic and named types, structs, slices, arrays, maps, pointers, closures, channels, multiple returns, variadics, defer, labelled loops, switches, type switches, select, optional import of the native package lib) each verified by go/types, each with %d single-point mutants (17 AST-guided edit classes incl. inserting one of %d near-miss snippets); every import-free run/compile/errorcheck program of /repo/test/compare/testdata plus %d mutants of them. Each program is judged by go/types (go1.20) and built by scriggo.Build; only accept/reject and the dynamic type of the error are compared. distinct_nontrivial counts distinct (origin, mutation class, verdict, reference error class) tuples", nBase, nMut, len(typedprog.Snippets), nCorpusMut)
 	d.T.Assumptions = []string{
@@ -246,24 +257,16 @@ func (prop) Drive(d *core.Driver) error {
 		}
 		progs = append(progs, Prog{ID: fmt.Sprintf("%s.m%d", p.ID, k), Origin: "corpus", Kind: mu.Kind, Note: mu.Desc, Src: mu.Src})
 	}
-	// keep the sweep away from the constructs of the open findings
-	scoped := map[string]int{}
-	kept := progs[:0]
-	for _, p := range progs {
-		if f := parseFile(p.Src); f != nil {
-			if d.InScope(ScopeLabelledBranchInRange) && hasLabelledBranchInRange(f) {
-				scoped[ScopeLabelledBranchInRange]++
-				continue
-			}
-			if d.InScope(ScopeRecursiveType) && hasRecursiveType(f) {
-				scoped[ScopeRecursiveType]++
-				continue
-			}
+	// The worker keeps the sweep away from the constructs of the open findings:
+	// it evaluates the scope predicates (scope.go) on the reference's syntax
+	// tree and type information and does not judge a program inside a scope.
+	var scopes []string
+	for _, sc := range AllScopes {
+		if d.InScope(sc) {
+			scopes = append(scopes, sc)
 		}
-		kept = append(kept, p)
 	}
-	progs = kept
-	d.T.Set("programs_excluded_by_finding_scope", scoped)
+	d.T.Set("active_finding_scopes", scopes)
 	d.T.Set("programs", len(progs))
 	var cases []core.Case
 	for i := 0; i < len(progs); i += perCase {
@@ -271,7 +274,7 @@ func (prop) Drive(d *core.Driver) error {
 		if j > len(progs) {
 			j = len(progs)
 		}
-		cases = append(cases, core.NewCase(fmt.Sprintf("batch-%d", len(cases)), caseData{Progs: progs[i:j]}))
+		cases = append(cases, core.NewCase(fmt.Sprintf("batch-%d", len(cases)), caseData{Progs: progs[i:j], Scopes: scopes}))
 	}
 	d.Run(cases, core.RunOpts{})
 	return nil
